@@ -11,6 +11,7 @@ func sm9OverridesC10() map[string]string {
 	m["(*"+s+".SignMasterPublicKey).ScalarBaseMult"] = "verifModel_SignMasterPublicKey_ScalarBaseMult"
 	m["(*"+s+".EncryptMasterPublicKey).ScalarBaseMult"] = "verifModel_EncryptMasterPublicKey_ScalarBaseMult"
 	m[driver.Module+"/internal/sm3.blockGeneric"] = "verifModel_blockGeneric"
+	m[s+".hash"] = "verifModel_hash"
 	return m
 }
 
